@@ -347,7 +347,7 @@ pub fn run_acl(seed: u64, r: &mut Report, stats: &mut crate::RunStats) {
     let nft = h.last.vamms[0].next_funding_time;
     let now = h.last.time;
     if nft >= now {
-        h.step(Op::Advance { blocks: 10, secs: nft - now + 5 }, r);
+        h.step(Op::Advance { blocks: 10, secs: nft - now + 5, nanos: 0 }, r);
     }
     let mut roles = Roles {
         vamm_owner: "owner".into(),
